@@ -23,6 +23,7 @@ func init() {
 			"R3 Header has only scalar fields and the Header stored into the returned Message is freshly allocated; " +
 			"R4 no read-path function stores a pool-derived reference into a Message/AVP/Header or package-level location, and buffers are returned to the pool only by a deferred call at ReadMessage's exit; " +
 			"R5 no function reachable from the write / serialise / inspect API (WriteTo*, Serialize*, Len, String, PrettyDump, FindAVP*, Unmarshal) stores into a field of the Message, Header, AVP or GroupedAVP it was given. " +
+			"R5 also: the read-only API never copies by reflection (reflect.Copy) into storage a destination already has, which after an earlier Unmarshal can be a decoded message's body. " +
 			"R6 the handlers the library itself installs (package sm) treat the received message as read-only: no NewAVP / AddAVP / InsertAVP / Marshal on it, no store into its fields, and no store into an AVP taken from the struct it was parsed into. The rule removes the only shared storage every concurrent history would need. Not decided: histories as executions; values an application mutates itself.",
 		Rules: map[string]string{
 			"R1": "alias classification of each datatype.Decoder entry",
@@ -412,24 +413,69 @@ func (c *Ctx) c06ReadOnly() {
 func (c *Ctx) c06Handlers() {
 	r := c.R
 	n := 0
+	// which *Message parameters are the received message: the message parameter of a function with the handler
+	// signature, and (fixpoint) every parameter that receives such a value at a library call site — a helper that
+	// is handed the answer under construction is not concerned
+	received := map[*ssa.Parameter]bool{}
+	var smFns []*ssa.Function
 	for _, f := range c.P.LibraryFuncs() {
 		if pkgOf(f) == nil || !strings.HasPrefix(pkgOf(f).Path(), pkgSM) {
 			continue
 		}
+		smFns = append(smFns, f)
+		ps := f.Params
+		if f.Signature.Recv() != nil && len(ps) > 0 {
+			ps = ps[1:]
+		}
+		if len(ps) == 2 && flow.TypeIs(ps[0].Type(), pkgDiam, "Conn") && isMsgPtr(ps[1].Type()) {
+			received[ps[1]] = true
+		}
+	}
+	isReceivedVal := func(v ssa.Value) bool {
+		v = flow.Peel(v)
+		if p, ok := v.(*ssa.Parameter); ok {
+			return received[p]
+		}
+		if sp := spilledParam(v); sp != nil {
+			return received[sp]
+		}
+		if fv, ok := v.(*ssa.FreeVar); ok {
+			if b := flow.BoundValue(fv); b != nil {
+				if p, ok := flow.Peel(b).(*ssa.Parameter); ok {
+					return received[p]
+				}
+			}
+		}
+		return false
+	}
+	for changed := true; changed; {
+		changed = false
+		for _, f := range smFns {
+			for _, ci := range flow.CallInstrs(f) {
+				g := flow.StaticCallee(ci)
+				if g == nil || g.Blocks == nil || !c.P.IsLibrary(g) {
+					continue
+				}
+				for i, a := range ci.Common().Args {
+					if i < len(g.Params) && isMsgPtr(a.Type()) && !received[g.Params[i]] && isReceivedVal(a) {
+						received[g.Params[i]] = true
+						changed = true
+					}
+				}
+			}
+		}
+	}
+	for _, f := range smFns {
 		// message values that are the received message: *Message parameters, and free variables of closures bound to them
 		var msgs []ssa.Value
 		for _, p := range f.Params {
-			if isMsgPtr(p.Type()) {
+			if isMsgPtr(p.Type()) && received[p] {
 				msgs = append(msgs, p)
 			}
 		}
 		for _, fv := range f.FreeVars {
-			if isMsgPtr(fv.Type()) {
-				if b := flow.BoundValue(fv); b != nil {
-					if _, isP := flow.Peel(b).(*ssa.Parameter); isP {
-						msgs = append(msgs, fv)
-					}
-				}
+			if isMsgPtr(fv.Type()) && isReceivedVal(fv) {
+				msgs = append(msgs, fv)
 			}
 		}
 		isMsg := func(v ssa.Value) bool {
